@@ -47,6 +47,12 @@ def make_overlay(prop, pkgs, models):
             shutil.copy(os.path.join(common, f), os.path.join(dst, f))
         with open(os.path.join(cr, "lib.rs"), "a") as f:
             f.write("\n#[cfg(kani)]\n#[allow(warnings)]\nmod verif_kani;\n")
+        # harness-only dependencies of the overlay copy of this package (e.g. the tokio model for
+        # a crate that itself only has tokio as a dev-dependency)
+        for dep in registry.EXTRA_DEPS.get(pkg, []):
+            ct = os.path.join(ov, "crates", pkg, "Cargo.toml")
+            with open(ct, "a") as f:
+                f.write(f"\n[dependencies.{dep}]\nworkspace = true\n")
         # child modules of private modules (need access to private fields): append
         # `#[cfg(kani)] #[path] mod` to the named source file, nothing else is edited
         for srcfile, modfile, cfg in registry.INJECT.get(pkg, []):
@@ -135,7 +141,8 @@ def parse_log(text):
     r["verif_time_s"] = float(m.group(1)) if m else None
     r["stubs"] = re.findall(r"- Stub: (.*)", text)
     r["build_error"] = bool(re.search(r"^error(\[E\d+\])?:", text, re.M)) and r["verdict"] is None
-    r["oom"] = ("std::bad_alloc" in text or "Out of memory" in text or "memory exhausted" in text)
+    r["oom"] = ("std::bad_alloc" in text or "Out of memory" in text or "memory exhausted" in text
+                or "ran out of memory" in text)
     r["unsupported"] = [c for c in r["checks"] if "unsupported" in c["desc"].lower() or
                         "is not currently supported" in c["desc"]]
     return r
@@ -151,6 +158,8 @@ def classify(h, pr, rc, timed_out):
         if pr["build_error"]:
             return "inconclusive", "harness did not compile against the current tree"
         return "inconclusive", f"no verdict (rc={rc})"
+    if pr["oom"]:
+        return "inconclusive", "solver out of memory"
     fails = [c for c in pr["checks"] if c["status"] == "FAILURE"]
     covers = [c for c in pr["checks"] if c["name"].split(".")[-2:-1] == ["cover"] or ".cover." in c["name"]]
     bad_cov = [c for c in covers if c["status"] != "SATISFIED"]
@@ -320,7 +329,7 @@ def main(argv):
         todo = [(h, bases[k]) for k, ghs in groups.items() if k in bases for h in ghs]
         # heaviest first
         todo.sort(key=lambda x: -x[0].timeout)
-        with cf.ThreadPoolExecutor(max_workers=max(1, a.jobs)) as ex:
+        with cf.ThreadPoolExecutor(max_workers=max(1, min(a.jobs, P.jobs))) as ex:
             futs = [ex.submit(run_harness, h, ov, b, root) for h, b in todo]
             for f in cf.as_completed(futs):
                 r = f.result()
